@@ -693,8 +693,9 @@ def run(ctx):
     r8_4(ctx)
     r8_5(ctx)
     r8_6(ctx)
-    from . import c16, c19
+    from . import c04, c16, c19
     c16.r16_2(ctx)
     c19.r19_6_7(ctx)
+    c04.r4_7(ctx)
     for k, v in INFEASIBLE_RAISE.items():
         ctx.trust(f"frozen infeasible raise: {k[0]} {k[1]} - {v}")
